@@ -300,7 +300,10 @@ func (db *MultiBucketBackend) DeleteBucket(name string) (rerr error) {
 	defer db.lock.Unlock()
 
 	entries, err := afero.ReadDir(db.bucketFs, name)
-	if err != nil {
+	if os.IsNotExist(err) {
+		// (deleted by another request since the handler looked)
+		return gofakes3.BucketNotFound(name)
+	} else if err != nil {
 		return err
 	}
 
